@@ -770,13 +770,13 @@ Definition StepShape (B : N -> nat) (h' : hstate) (o : list output) : Prop :=
   \/ exists o0 na rid rb, o = o0 ++ [OEvent (HResponse na rid rb)] /\ 1 <= occ rid h' /\ nonfinal rb
        /\ forall x, occ x h' + men x o0 <= B x.
 
-Theorem step_conservation : forall c h e now d,
-  StepShape (fun x => occ x h + cnt x (new_ids e d)) (fst (step c h e now d)) (snd (step c h e now d)).
+Lemma step_event_conservation : forall c h d s0 e now,
+  Le {| hs := h; dr := d; outs := [] |} s0 ->
+  StepShape (fun x => occ x h + cnt x (new_ids e d)) (hs (step_event c s0 e now)) (outs (step_event c s0 e now)).
 Proof.
-  intros c h e now d. rewrite step_unfold. cbn [fst snd].
-  pose proof (fire_due_live c now TICK_FUEL {| hs := h; dr := d; outs := [] |}) as H0.
-  set (s0 := fire_due c {| hs := h; dr := d; outs := [] |} now TICK_FUEL) in *. clearbody s0.
-  assert (L0 : forall x, live x s0 <= occ x h). { intros x. pose proof (Le_live _ _ x H0) as X. unfold live in X at 2. cbn in X. lia. }
+  intros c h d s0 e now H0.
+  assert (L0 : forall x, live x s0 <= occ x h).
+  { intros x. pose proof (Le_live _ _ x H0) as X. unfold live in X at 2. cbn [hs outs men] in X. lia. }
   destruct H0 as [D0 _]. cbn [dr] in D0.
   assert (Fin : forall s' e', (forall x, live x s' <= occ x h + cnt x (new_ids e' d)) ->
             StepShape (fun x => occ x h + cnt x (new_ids e' d)) (hs s') (outs s')).
@@ -802,3 +802,140 @@ Proof.
     + apply FinR. apply handle_auth_message_live.
   - apply Fin. intros x. specialize (L0 x). lia.
 Qed.
+
+Theorem step_conservation : forall c h e now d,
+  StepShape (fun x => occ x h + cnt x (new_ids e d)) (fst (step c h e now d)) (snd (step c h e now d)).
+Proof.
+  intros c h e now d. rewrite step_unfold. cbn [fst snd]. apply step_event_conservation. apply fire_due_live.
+Qed.
+
+(* ------------------------------------------------------------------------------------------ *)
+(* terminal events.  A failure report is terminal.  A response is the last one of its request
+   exactly if the handler no longer holds the request after the step that reported it (every
+   HResponse is the last output of its step): handle_response either re-inserts the request and
+   waits for more NODES packets, or returns its exemption and forgets it.  [nonterminal_is_partial]
+   below ties this to the content: a non-terminal response is a NODES response announcing more
+   than one packet. *)
+
+Definition is_terminal (h' : hstate) (o : output) : bool :=
+  match o with
+  | OEvent (HRequestFailed _ _) => true
+  | OEvent (HResponse _ rid _) => Nat.eqb (occ rid h') 0
+  | _ => false
+  end.
+(* the events of a step about request ids, in order: (request id, terminal?) *)
+Definition tagged (h' : hstate) (o : list output) : list (N * bool) :=
+  flat_map (fun e => match about e with Some x => [(x, is_terminal h' e)] | None => [] end) o.
+
+Fixpoint run_tagged (c : config) (h : hstate) (evs : list (event * N * draws)) : list (N * bool) :=
+  match evs with
+  | [] => []
+  | (e, now, d) :: rest =>
+    tagged (fst (step c h e now d)) (snd (step c h e now d)) ++ run_tagged c (fst (step c h e now d)) rest
+  end.
+Definition run_new_ids (evs : list (event * N * draws)) : list N :=
+  flat_map (fun x => new_ids (fst (fst x)) (snd x)) evs.
+
+Lemma tagged_app : forall h' o1 o2, tagged h' (o1 ++ o2) = tagged h' o1 ++ tagged h' o2.
+Proof. intros. unfold tagged. apply flat_map_app. Qed.
+
+Lemma cnt_app : forall x l1 l2, cnt x (l1 ++ l2) = cnt x l1 + cnt x l2.
+Proof. intros. unfold cnt. apply count_occ_app. Qed.
+Lemma cnt_cons : forall x y l, cnt x (y :: l) = eqn y x + cnt x l.
+Proof. intros x y l. change (y :: l) with ([y] ++ l). rewrite cnt_app, cnt_single. reflexivity. Qed.
+Lemma cnt_pos_in : forall x l, 1 <= cnt x l <-> In x l.
+Proof. intros x l. unfold cnt. rewrite (count_occ_In N.eq_dec). lia. Qed.
+Lemma cnt_zero_notin : forall x l, cnt x l = 0 <-> ~ In x l.
+Proof. intros x l. unfold cnt. symmetry. apply count_occ_not_In. Qed.
+
+Lemma men_tagged : forall h' x o, cnt x (map fst (tagged h' o)) = men x o.
+Proof.
+  intros h' x. induction o as [|e t IH]; cbn [tagged flat_map men]; [reflexivity|].
+  fold (tagged h' t). rewrite map_app, cnt_app, IH. destruct (about e) as [y|]; cbn [map fst].
+  - rewrite cnt_single. reflexivity.
+  - reflexivity.
+Qed.
+
+Lemma tagged_in_men : forall h' x b o, In (x, b) (tagged h' o) -> 1 <= men x o.
+Proof.
+  intros h' x b o H. rewrite <- (men_tagged h'). apply cnt_pos_in. apply (in_map fst) in H. exact H.
+Qed.
+
+Section StepFacts.
+Variables (c : config) (h : hstate) (e : event) (now : N) (d : draws).
+Let h' := fst (step c h e now d).
+Let o := snd (step c h e now d).
+Let B := fun x => occ x h + cnt x (new_ids e d).
+
+Lemma step_occ_le : forall x, occ x h' <= B x.
+Proof.
+  intros x. destruct (step_conservation c h e now d) as [A|(o0 & na & rid & rb & _ & _ & _ & A)];
+    specialize (A x); cbv beta in A; subst h' B; cbv beta; lia.
+Qed.
+
+Lemma step_mention_live : forall x b, In (x, b) (tagged h' o) -> 1 <= B x.
+Proof.
+  intros x b H. destruct (step_conservation c h e now d) as [A|(o0 & na & rid & rb & A1 & A2 & A3 & A)].
+  - apply tagged_in_men in H. specialize (A x). cbv beta in A. subst h' o B. cbv beta. lia.
+  - subst o. rewrite A1, tagged_app in H. apply in_app_or in H. destruct H as [H|H].
+    + apply tagged_in_men in H. specialize (A x). cbv beta in A. subst B. cbv beta. lia.
+    + cbn in H. destruct H as [H|[]]. inversion H; subst. specialize (A x). cbv beta in A.
+      subst B. cbv beta. fold h' in A2. lia.
+Qed.
+
+Hypothesis uniq : forall x, B x <= 1.
+
+Lemma step_shape_tagged :
+  (forall x, occ x h' + cnt x (map fst (tagged h' o)) <= B x)
+  \/ exists l0 rid, tagged h' o = l0 ++ [(rid, false)] /\ 1 <= occ rid h' /\
+       forall x, occ x h' + cnt x (map fst l0) <= B x.
+Proof.
+  destruct (step_conservation c h e now d) as [A|(o0 & na & rid & rb & A1 & A2 & A3 & A)].
+  - left. intros x. rewrite men_tagged. apply A.
+  - right. exists (tagged h' o0), rid. subst o. rewrite A1, tagged_app. fold h' in A2. split; [|split; [exact A2|]].
+    + f_equal. cbn. destruct (occ rid h') eqn:E; [lia|reflexivity].
+    + intros x. rewrite men_tagged. apply A.
+Qed.
+
+Lemma step_terminal_dead : forall x, In (x, true) (tagged h' o) -> occ x h' = 0.
+Proof.
+  intros x H. destruct step_shape_tagged as [A|(l0 & rid & A1 & A2 & A)].
+  - specialize (A x). specialize (uniq x). apply (in_map fst) in H. apply cnt_pos_in in H. cbn [fst] in H. lia.
+  - rewrite A1 in H. apply in_app_or in H. destruct H as [H|[H|[]]]; [|discriminate].
+    specialize (A x). specialize (uniq x). apply (in_map fst) in H. apply cnt_pos_in in H. cbn [fst] in H. lia.
+Qed.
+
+Lemma step_nothing_after_terminal : forall x l1 l2, tagged h' o = l1 ++ (x, true) :: l2 -> ~ In x (map fst l2).
+Proof.
+  intros x l1 l2 H. apply cnt_zero_notin. destruct step_shape_tagged as [A|(l0 & rid & A1 & A2 & A)].
+  - specialize (A x). specialize (uniq x). rewrite H, map_app, cnt_app in A. cbn [map fst] in A.
+    rewrite cnt_cons, eqn_refl in A. lia.
+  - rewrite A1 in H.
+    assert (X : exists l2', l2 = l2' ++ [(rid, false)] /\ l0 = l1 ++ (x, true) :: l2').
+    { destruct (exists_last (l := l2)) as [[l2' [y Hy]]|]. 
+      - intros ->. apply (f_equal (@rev _)) in H. rewrite !rev_app_distr in H. cbn in H. inversion H.
+      - subst l2. exists l2'. change (l1 ++ (x, true) :: l2' ++ [y]) with (l1 ++ ((x, true) :: l2') ++ [y]) in H.
+        rewrite app_assoc in H. apply app_inj_tail in H. destruct H as [H1 H2]. subst. auto.
+      - discriminate. }
+    destruct X as (l2' & -> & ->). specialize (A x). specialize (uniq x).
+    rewrite map_app, cnt_app in A. cbn [map fst] in A. rewrite cnt_cons, eqn_refl in A.
+    rewrite map_app, cnt_app. cbn [map fst]. rewrite cnt_single.
+    unfold eqn. destruct (N.eqb rid x) eqn:E; [|lia]. apply N.eqb_eq in E. subst rid. lia.
+Qed.
+
+Lemma step_nonterminal_is_partial : forall na x rb,
+  In (OEvent (HResponse na x rb)) o -> occ x h' <> 0 -> nonfinal rb.
+Proof.
+  intros na x rb H Hocc. destruct (step_conservation c h e now d) as [A|(o0 & na' & rid & rb' & A1 & A2 & A3 & A)].
+  - exfalso. specialize (A x). specialize (uniq x). cbv beta in A. fold h' o in A.
+    assert (1 <= men x o).
+    { apply in_split in H. destruct H as (p1 & p2 & ->). rewrite men_app. cbn [men about]. rewrite eqn_refl. lia. }
+    subst B. cbv beta in uniq. lia.
+  - fold o in A1. rewrite A1 in H. apply in_app_or in H. destruct H as [H|[H|[]]].
+    + exfalso. specialize (A x). specialize (uniq x). cbv beta in A. fold h' in A.
+      assert (1 <= men x o0).
+      { apply in_split in H. destruct H as (p1 & p2 & ->). rewrite men_app. cbn [men about]. rewrite eqn_refl. lia. }
+      subst B. cbv beta in uniq. lia.
+    + inversion H; subst. exact A3.
+Qed.
+End StepFacts.
